@@ -148,6 +148,67 @@ fn stray_kind(text: &str, printed_len_chars: usize) -> Option<&'static str> {
     }
 }
 
+/// For every character of a (parse-clean) source text: is it part of a comment or of a string?
+fn literal_mask(t: &[char]) -> Vec<bool> {
+    let mut m = vec![false; t.len()];
+    let mut i = 0;
+    while i < t.len() {
+        if t[i] == '/' && t.get(i + 1) == Some(&'/') {
+            while i < t.len() && t[i] != '\n' {
+                m[i] = true;
+                i += 1;
+            }
+        } else if t[i] == '/' && t.get(i + 1) == Some(&'*') {
+            let mut depth = 0;
+            while i < t.len() {
+                if t[i] == '/' && t.get(i + 1) == Some(&'*') {
+                    depth += 1;
+                    m[i] = true;
+                    m[i + 1] = true;
+                    i += 2;
+                } else if t[i] == '*' && t.get(i + 1) == Some(&'/') {
+                    depth -= 1;
+                    m[i] = true;
+                    m[i + 1] = true;
+                    i += 2;
+                    if depth == 0 {
+                        break;
+                    }
+                } else {
+                    m[i] = true;
+                    i += 1;
+                }
+            }
+        } else if t[i] == '"' {
+            m[i] = true;
+            i += 1;
+            while i < t.len() && t[i] != '"' && t[i] != '\n' {
+                m[i] = true;
+                i += 1;
+            }
+            if i < t.len() && t[i] == '"' {
+                m[i] = true;
+                i += 1;
+            }
+        } else {
+            i += 1;
+        }
+    }
+    m
+}
+
+/// The property's comparison: exact, except for the letter case of what is not a comment or a string (mnemonics,
+/// keywords; identifiers and hex digits are printed as written and are held to the same rule).
+fn same_up_to_keyword_case(printed: &str, want: &str) -> bool {
+    let a: Vec<char> = printed.chars().collect();
+    let b: Vec<char> = want.chars().collect();
+    if a.len() != b.len() {
+        return false;
+    }
+    let lit = literal_mask(&b);
+    a.iter().zip(b.iter()).enumerate().all(|(i, (x, y))| x == y || (!lit[i] && x.eq_ignore_ascii_case(y)))
+}
+
 pub fn check_text(text: &str, log: &mut CaseLog) -> Verdict {
     let p = Project::single(text);
     let r = guarded(|| {
@@ -176,11 +237,12 @@ pub fn check_text(text: &str, log: &mut CaseLog) -> Verdict {
     let want = text.replace("\r\n", "\n");
     // CRLF inside a block comment is kept verbatim by the printer: "up to CRLF -> LF" applies to both sides
     let printed = printed.replace("\r\n", "\n");
-    if printed.to_uppercase() != want.to_uppercase() {
+    if !same_up_to_keyword_case(&printed, &want) {
         // locate
-        let a: Vec<char> = printed.to_uppercase().chars().collect();
-        let b: Vec<char> = want.to_uppercase().chars().collect();
-        let pos = a.iter().zip(b.iter()).position(|(x, y)| x != y).unwrap_or(a.len().min(b.len()));
+        let a: Vec<char> = printed.chars().collect();
+        let b: Vec<char> = want.chars().collect();
+        let lit = literal_mask(&b);
+        let pos = a.iter().zip(b.iter()).enumerate().position(|(i, (x, y))| x != y && (lit[i] || !x.eq_ignore_ascii_case(y))).unwrap_or(a.len().min(b.len()));
         let kind = if a.len() < b.len() && pos == a.len() {
             match stray_kind(&want, printed.chars().count()) {
                 Some(k) => format!("text-dropped-without-diagnostic|{}", k),
